@@ -9,9 +9,10 @@ PROP = {
     "rule": "case = generated workspace (2-8 files: split classes with docs, conflicting globals, requires incl. cycles, aliases, enums, operators, "
             "---@diagnostic comments, meta files, optional library root) + consistent start (batch analysis in id order | one-by-one+reindex | production batch+reindex) "
             "+ history of re-submit-unchanged / batch re-submit-unchanged / edit-then-restore steps; the dump is compared after every step, the census after the history; "
-            "distinct = hash of (file texts, config, setup, steps); non-trivial = >= 2 files, >= 4 chunks and >= 1 step applied",
-    "min_nontrivial": {"quick": 300, "thorough": 10000},
-    "max_secs": {"quick": 60, "thorough": 1000},
+            "every case yields two evaluations (clause a: dump equality after every step; clause b: census not grown) so that a census leak does not hide the dump clause; "
+            "distinct = hash of (file texts, config, setup, steps, clause); non-trivial = >= 2 files, >= 4 chunks and >= 1 step applied",
+    "min_nontrivial": {"quick": 150, "thorough": 3000},
+    "max_secs": {"quick": 45, "thorough": 1000},
     "require_clauses": ["a:dump-equal-after-step", "b:census-not-grown", "step:resubmit", "step:batch-resubmit", "step:edit-restore"],
     "assumptions": COMMON_ASSUME + [
         "the observable dump (src/observe.rs: diagnostics with all codes enabled, semantic info of every name/string token, declarations with references and docs, "
